@@ -13,6 +13,7 @@ func init() {
 	register("C20", func(c *core.Ctx, tier string) {
 		c20LockDiscipline(c)
 		c20MapDiscipline(c)
+		c20AliasUnderLock(c)
 		lockBalance(c, "C20.1c", "types", "utils")
 		c20NoSharing(c)
 		c20Snapshot(c, "C20.2b")
@@ -894,4 +895,56 @@ func c20Snapshot(c *core.Ctx, R string) {
 		}
 		c.Check(R, "types.(*Slice).all/make(len)+copy+return", all.Pos(), mk && cp && ret, "a new array of the full length, filled from elements, is returned")
 	}
+}
+
+// c20AliasUnderLock — C20.1d: a local that aliases the guarded storage is used only while the lock is held.
+func c20AliasUnderLock(c *core.Ctx) {
+	const R = "C20.1d"
+	c.Rule(R, "alias discipline: a local variable defined from the guarded field of Slice / Set / ParameterBag (the slice or map header, or a re-slice of it) aliases the protected storage; every use of such a local happens with the container's lock held (copying the header under RLock and iterating after RUnlock reads elements that concurrent in-place writers are moving)")
+	n := 0
+	for _, sp := range []struct{ pkg, typ, field, lock string }{
+		{"types", "Slice", "elements", "Slice.mu"}, {"types", "Set", "cache", "Set.mu"}, {"utils", "ParameterBag", "parameters", "ParameterBag.mu"},
+	} {
+		for _, m := range methodsOf(c, sp.pkg, sp.typ) {
+			if !ast.IsExported(m.Decl.Name.Name) {
+				continue
+			}
+			info := m.Info()
+			g := m.Graph()
+			aliases := map[types.Object]bool{}
+			for _, a := range assignsIn(m, func(l ast.Expr) bool { _, ok := l.(*ast.Ident); return ok }) {
+				e := ast.Unparen(a.Rhs)
+				for {
+					if se, isS := e.(*ast.SliceExpr); isS {
+						e = ast.Unparen(se.X)
+						continue
+					}
+					break
+				}
+				if a.Rhs != nil && fieldOf(info, e) == sp.typ+"."+sp.field {
+					if o := core.ObjOf(info, a.Lhs); o != nil {
+						aliases[o] = true
+					}
+				}
+			}
+			if len(aliases) == 0 {
+				continue
+			}
+			ast.Inspect(m.Body, func(nd ast.Node) bool {
+				if _, isLit := nd.(*ast.FuncLit); isLit {
+					return false
+				}
+				id, isId := nd.(*ast.Ident)
+				if !isId || info.Uses[id] == nil || !aliases[info.Uses[id]] {
+					return true
+				}
+				n++
+				held := g.HeldAt(g.LocOf(id))
+				ok := held[sp.lock] || held[sp.lock+"#R"]
+				c.Check(R, keyf("%s/use-of-alias(%s)", m.Key, id.Name), id.Pos(), ok, keyf("held=%v", keys(held)))
+				return true
+			})
+		}
+	}
+	c.Note(keyf("C20.1d: %d uses of storage aliases checked", n))
 }
